@@ -22,7 +22,9 @@ let take n l =
   go n l []
 
 (* ---------------------------------------------------------------- hash map *)
-let hm : key hmap option ref = ref None
+(* the map lives under the allocation oracle of coq/UT/Hmap_af.v (repaired variant, code = false); without `hm failat`
+   the oracle never fails and every function is the one of Hmap.v (C18_hmap_af_nofail) *)
+let hm : key amap option ref = ref None
 let hm_kind = ref 0
 let hm_hash = ref (fun (_ : key) -> Z0)
 let keq (a : key) (b : key) = (a = b)
@@ -37,6 +39,30 @@ let flog m =
 let two32 = z_of_string "4294967296"
 let two64 = z_of_string "18446744073709551616"
 let zmod a b = snd (Z.div_eucl a b)
+
+(* `hm failat <n> <sites>`: the n-th allocation call from now on whose site is listed returns NULL (one shot).
+   The oracle is a function of the history of allocation sites (newest first), as in Hmap_af.v. *)
+let site_name = function
+  | SCreateHm -> "chm" | SCreateBk -> "cbk" | SAdd -> "add" | SReadd -> "readd" | SRehash -> "rehash"
+  | SNode -> "node" | SShrink -> "shrink" | SClear -> "clear" | SStrdup -> "strdup"
+let hm_hist : site list ref = ref []
+let hm_af : string list ref = ref []
+let hm_code = false
+let hm_orc : (site list -> bool) ref = ref (fun _ -> false)
+let hm_arm n sites =
+  let base = List.length !hm_hist in
+  let listed s = sites = ["all"] || List.mem (site_name s) sites in
+  hm_orc := (fun h ->
+    match h with
+    | [] -> false
+    | cur :: _ ->
+      let recent = take (List.length h - base) h in
+      let r = n > 0 && listed cur && List.length (List.filter listed recent) = n in
+      if r then hm_af := !hm_af @ [site_name cur];
+      r)
+let put_af () =
+  let s = if !hm_af = [] then "" else " af=" ^ String.concat "," !hm_af in
+  hm_af := []; s
 
 (* `hm iter`: iwhmap_iter_init + iwhmap_iter_next step by step *)
 let hm_iter_line m =
@@ -55,8 +81,15 @@ let hm_line = function
       | KS s -> hash_str s);
     let l = int_of_string lru in
     let ikp = if k = 0 then cONT_hmap_u32_ikp <> Z0 else if k = 1 then cONT_hmap_u64_ikp <> Z0 else false in
-    hm := hcreate true (if l >= 0 then Some (z_of_int l) else None) ikp;
-    "ok"
+    (match !hm with Some a -> hm_hist := a.a_hist | None -> ());
+    let (h, r) = hcreate_f !hm_orc !hm_hist true (if l >= 0 then Some (z_of_int l) else None) ikp in
+    hm_hist := h; hm := r;
+    (match r with Some _ -> "ok" | None -> "null" ^ put_af ())
+  | ["failat"; n; sites] ->
+    (match !hm with Some a -> hm_hist := a.a_hist | None -> ());
+    hm_af := [];
+    hm_arm (int_of_string n) (String.split_on_char ',' sites); "ok"
+  | ["failoff"] -> hm_af := []; hm_orc := (fun _ -> false); "ok"
   | ["create0"] -> (match (hcreate false None false : key hmap option) with None -> "null=1" | Some _ -> "null=0")
   | ["null"] | ["kvfree"] -> "ok"
   | ["iter0"] ->
@@ -68,24 +101,30 @@ let hm_line = function
   | op :: args ->
     (match !hm with
      | None -> "nohm"
-     | Some m ->
-       let m = clear_log m in
-       let fin m' s = hm := Some m'; s ^ " n=" ^ soz (h_count m') ^ flog m' in
+     | Some a ->
+       let a = with_m a (clear_log a.a_m) in
+       let m = a.a_m in
+       let orc = !hm_orc in
+       let fin a' s = hm := Some a'; hm_hist := a'.a_hist; s ^ " n=" ^ soz (h_count a'.a_m) ^ flog a'.a_m ^ put_af () in
+       let rc ok = if ok then "rc=0" else "rc=err" in
        (match op, args with
         | "put", [k; v] ->
           (* iwhmap_put_u32 takes a uint32_t key *)
           let key = (match parse_key k with KI z when !hm_kind = 0 -> KI (zmod z two32) | x -> x) in
-          fin (hput keq !hm_hash m key (z_of_string v)) "rc=0"
+          let (a', ok) = (if !hm_kind = 2 || !hm_kind = 4 then hput_str_f else hput_f) keq !hm_hash orc hm_code a key (z_of_string v) in
+          fin a' (rc ok)
         | "get", [k] ->
-          let (m', v) = hget_val keq !hm_hash m (parse_key k) in
-          fin m' ("v=" ^ (if v = Z0 then "nil" else soz v))
+          let (a', v) = hget_f keq !hm_hash orc a (parse_key k) in
+          fin a' ("v=" ^ (if v = Z0 then "nil" else soz v))
         | "rm", [k] ->
-          let (m', r) = hremove keq !hm_hash m (parse_key k) in
-          fin m' (if r then "r=1" else "r=0")
-        | "ren", [a; b] -> fin (hrename keq !hm_hash m (parse_key a) (parse_key b)) "rc=0"
+          let (a', r) = hremove_f keq !hm_hash orc hm_code a (parse_key k) in
+          fin a' (if r then "r=1" else "r=0")
+        | "ren", [x; y] ->
+          let (a', ok) = hrename_f keq !hm_hash orc hm_code a (parse_key x) (parse_key y) in
+          fin a' (rc ok)
         | "clear", [] ->
-          let m' = hclear m in
-          hm := Some m'; "n=" ^ soz (h_count m') ^ flog m'
+          let a' = hclear_f orc a in
+          hm := Some a'; hm_hist := a'.a_hist; "n=" ^ soz (h_count a'.a_m) ^ flog a'.a_m ^ put_af ()
         | "count", [] -> "n=" ^ soz (h_count m)
         | "iter", [] -> fst (hm_iter_line m)
         | "iterx", [] ->
@@ -94,7 +133,7 @@ let hm_line = function
           let (s, itf) = hm_iter_line m in
           let (it2, again) = iter_next true m itf in
           s ^ Printf.sprintf " again=%d ib2=%d" (if again then 1 else 0) (ion it2.it_bucket)
-        | "lruinit", [n] -> hm := Some (hlruinit m (zmod (z_of_string n) two32)); "ok"
+        | "lruinit", [n] -> hm := Some (with_m a (hlruinit m (zmod (z_of_string n) two32))); "ok"
         | "evmax", [n] -> if hevmax m (zmod (z_of_string n) two32) then "r=1" else "r=0"
         | "lru", [] ->
           let (ks, ok) = hlru m in
@@ -104,8 +143,8 @@ let hm_line = function
           Printf.sprintf "mask=%s b=%s" (soz mask)
             (join "," (fun ((i, u), t) -> Printf.sprintf "%d:%s/%s" (ion i) (soz u) (soz t)) l)
         | "destroy", [] ->
-          let m' = hdestroy m in
-          hm := None; "d" ^ flog m'
+          let a' = hdestroy_f a in
+          hm := None; hm_hist := a'.a_hist; "d" ^ flog a'.a_m ^ put_af ()
         | _ -> "?"))
   | _ -> "?"
 
